@@ -24,13 +24,24 @@ def gen_consumer(rng, sid):
             "cb_delay": rng.choice([0, 0, 0.05]),
             "program": [["start"], ["consume", t_stop, 0.1, rng.choice([1, None]), 0], ["stop", 600.0, True]]}
     consumers = [main]
+    extra_events = []
+    if not group and rng.random() < 0.6:
+        # the group-less consumer's assignment is replaced while it runs (new partition count seen by a
+        # metadata refresh, or a re-subscribe) before stop()
+        main["metadata_max_age_ms"] = 200
+        if rng.random() < 0.5:
+            extra_events.append({"at": rng.choice([0.05, 0.2, 0.5]), "op": "add_partitions", "topic": "t0", "n": 1})
+            main["program"] = [["start"], ["consume", max(t_stop, 1.0), 0.1, None, 0], ["stop", 600.0, True]]
+        else:
+            main["program"] = [["start"], ["consume", t_stop / 2, 0.1, None, 0], ["subscribe", ["t0"]],
+                               ["consume", t_stop / 2 + 0.3, 0.1, None, 0], ["stop", 600.0, True]]
     if group and rng.random() < 0.5:
         # a second member joins around the stop time: stop() mid-rebalance
         consumers.append({"name": "c1", "group": "g", "topics": ["t0"], "assignors": main["assignors"],
                           "auto_commit": True, "auto_commit_interval_ms": 300, "cb_delay": 0,
                           "program": [["sleep", max(0.0, t_stop + rng.choice([-0.05, -0.01, 0.0, 0.002]))],
                                       ["start"], ["consume", 1.0, 0.1, None, 0], ["stop", 600.0, False]]})
-    events = []
+    events = list(extra_events)
     at = max(0.0, t_stop - dt) + 0.02    # start() itself takes ~20 ms
     coord = rng.randrange(brokers)
     if cond == "all_down":
